@@ -17,7 +17,11 @@ def guard(g, kind):
 
 LIT = {"int": "42", "float": "2.5", "neg": "-3", "hex": "0xFF", "oct": "0o17", "bin": "0b1010", "dec": "0d19", "sci": "1.5e3", "scineg": "2.5e-2",
        "scicap": "1.5E3", "rat": "3/4", "cplx": "1+2i", "cplxneg": "1.5-2.5i", "imag": "2i", "typed": "5u8", "annot": "5<u8>", "str": '"hi"',
-       "stresc": '"a\\"b"', "strnl": '"one\\ntwo"', "strraw": '"one\ntwo"', "strtab": '"a\\tb"', "strsp": '"  two  spaces  "', "strempty": '""', "atom": ":ok", "empty": "_", "true": "true", "false": "false", "big": "123456789012", "leaddot": ".5"}
+       "stresc": '"a\\"b"', "strnl": '"one\\ntwo"', "strraw": '"one\ntwo"', "strtab": '"a\\tb"', "strsp": '"  two  spaces  "', "strempty": '""',
+       # quotes / backslashes at every position class of a string: at the end, at the start, alone, doubled, backslash before the closing quote
+       "strqend": '"a\\""', "strqstart": '"\\"a"', "strqonly": '"\\""', "strq2end": '"a\\"\\""', "strbsend": '"a\\\\"', "strbsonly": '"\\\\"',
+       "strbsq": '"a\\\\\\""', "strq2mid": '"a\\"\\"b"', "strq3mid": '"a\\"\\"\\"b"', "strbrace": '"{x} [y]"', "struni": '"h\u00e9 \u2211"', "strsemi": '"a; b -- c"', "strdash": '"-- x"',
+       "atom": ":ok", "empty": "_", "true": "true", "false": "false", "big": "123456789012", "leaddot": ".5"}
 
 def render(cs):
     f, a, b, c, d = cs["fam"], cs["a"], cs["b"], cs["c"], cs["d"]
